@@ -42,7 +42,7 @@ def parse_position_marker_arg(
             dec_part_raw_stripped = decimal_parts[0].rstrip("0")  # strip 0s off the decimal places
             dec_part = int(dec_part_raw_stripped if dec_part_raw_stripped != "" else "0")
         elif len(decimal_parts) == 2:  # XXXXX.YYYYY
-            pos = int(decimal_parts[0] if decimal_parts[0] != "" else "0")
+            pos = int(decimal_parts[0] if decimal_parts[0] not in ("", "-") else "0")
             dec_part_raw_stripped = decimal_parts[1].rstrip("0")  # strip 0s off the decimal places
             dec_part = int(dec_part_raw_stripped if dec_part_raw_stripped != "" else "0")
         else:
